@@ -1,4 +1,3 @@
-(* WIP *)
 (* Proofs about the WebSocket adapter model (C39). *)
 From MV Require Import Base.Val IO.WsFrame.
 From Coq Require Import Lia ZifyBool ZifyN ZifyNat.
@@ -37,11 +36,12 @@ Lemma rd_loop_spec : forall fuel need rest o acc d c o', (need < fuel)%nat ->
 Proof.
   induction fuel as [|f IH]; intros need rest o acc d c o' Hf H; [lia|].
   cbn [rd_loop] in H. destruct need as [|n].
-  - inversion H; subst. exists []. rewrite app_nil_r. cbn. repeat split; auto. lia.
+  - injection H as Hd Hc Ho. subst d c o'. exists []. rewrite app_nil_r. cbn [cbytes app length].
+    split; [reflexivity|]. split; [reflexivity|]. split; [lia|]. split; [right; reflexivity|]. intro C. lia.
   - destruct (next_or o) as [x o1]. destruct (mr_read rest (S n) x) as [[chunk rest'] eof] eqn:Em.
     destruct (mr_read_spec rest (S n) x chunk rest' eof ltac:(lia) Em) as (A1 & A2 & A3 & A4 & A5).
     destruct eof.
-    + inversion H; subst. exists chunk. rewrite (A3 eq_refl) in A1. cbn [cbytes].
+    + injection H as Hd Hc Ho. subst d c o'. exists chunk. rewrite (A3 eq_refl) in A1. cbn [cbytes].
       split; [reflexivity|]. split; [exact A1|]. split; [exact A2|]. split; [left; reflexivity|].
       intros _ Hne E. subst chunk. specialize (A4 Hne). cbn in A4. lia.
     + assert (Hne : rest <> []) by (intro E; specialize (A5 E); discriminate).
@@ -94,17 +94,19 @@ Lemma read1_spec sz s o r s' o' : read1 sz s o = (r, s', o') ->
 Proof.
   unfold read1. destruct s as [c ms]. cbn [cur msgs]. destruct c as [rest|].
   - destruct (rd_loop (S sz) sz rest o []) as [[d c'] o1] eqn:E. intro H. inversion H; subst; clear H.
-    destruct (rd_loop_spec _ _ _ _ _ _ _ _ ltac:(lia) E) as (dd & B1 & B2 & B3 & B4 & B5).
-    cbn [app] in B1. subst dd. unfold pending, measure. cbn [cur msgs].
-    split; [rewrite app_assoc, B2; reflexivity|]. split; [exact B3|]. split; [reflexivity|].
+    destruct (rd_loop_spec _ _ _ _ _ _ _ _ (Nat.lt_succ_diag_r sz) E) as (dd & B1 & B2 & B3 & B4 & B5).
+    cbn [app] in B1. subst dd. unfold cbytes in B2. unfold pending, measure. cbn [cur msgs].
+    split; [apply (f_equal (fun x => x ++ stream ms)) in B2; rewrite <- app_assoc in B2; exact B2|].
+    split; [exact B3|]. split; [reflexivity|].
     intros Ed Hsz. subst d. destruct B4 as [B4 | B4]; [subst c'; lia | cbn in B4; lia].
   - destruct ms as [|m r0].
     + intro H. inversion H; subst. cbn. repeat split; reflexivity.
     + destruct (is_binary m) eqn:Eb.
       * destruct (rd_loop (S sz) sz (snd m) o []) as [[d c'] o1] eqn:E. intro H. inversion H; subst; clear H.
-        destruct (rd_loop_spec _ _ _ _ _ _ _ _ ltac:(lia) E) as (dd & B1 & B2 & B3 & B4 & B5).
-        cbn [app] in B1. subst dd. unfold pending, measure. cbn [cur msgs stream tail_after app]. rewrite Eb.
-        split; [rewrite app_assoc, B2; reflexivity|]. split; [exact B3|]. split; [reflexivity|].
+        destruct (rd_loop_spec _ _ _ _ _ _ _ _ (Nat.lt_succ_diag_r sz) E) as (dd & B1 & B2 & B3 & B4 & B5).
+        cbn [app] in B1. subst dd. unfold cbytes in B2. unfold pending, measure. cbn [cur msgs stream tail_after app]. rewrite Eb.
+        split; [apply (f_equal (fun x => x ++ stream r0)) in B2; rewrite <- app_assoc in B2; exact B2|].
+        split; [exact B3|]. split; [reflexivity|].
         intros Ed Hsz. subst d. destruct B4 as [B4 | B4]; [subst c'; cbn [length]; lia | cbn in B4; lia].
       * intro H. inversion H; subst; clear H. unfold pending. cbn [cur msgs stream tail_after app]. rewrite Eb.
         repeat split; reflexivity.
@@ -257,7 +259,7 @@ Lemma nonbinary_ends_complete pre m post sizes o d e sf : all_binary pre = true 
 Proof.
   intros Hb Hm HF HL H. destruct (nonbinary_ends pre m post sizes o d e sf Hb Hm H) as (N1 & N2 & _ & N4).
   assert (e <> EOpen).
-  { apply (read_all_progress sizes _ o d e sf HF); [|exact H].
+  { apply (read_all_progress sizes (mkWs None (pre ++ m :: post)) o d e sf HF); [|exact H].
     unfold pending. cbn [cur msgs app]. rewrite (proj1 (stream_app_nonbinary pre m post Hb Hm)). exact HL. }
   destruct e; try contradiction. destruct (N4 eq_refl) as (A & B & _). repeat split; assumption.
 Qed.
